@@ -511,6 +511,19 @@ def run_chunk(chunk, tier):
                         big_case(res, ntags, sc, chain, species_as)
         res.sample(dict(layer="BG", equilibria=list(BG_TAGS)), limit=1)
     elif chunk[0] == "DS":
+        for c0, stoich, K in (([2, 1, 1], (-1, 1, -1), 1000.0), ([1, 0, 3], (-1, 1, -1), 0.25), ([5, 0, 0], (-1, 2, 1), 2.0), ([1, 1], (-2, 1), 8.0), ([0, 4], (-2, 1), 8.0)):
+            brentq_spelling_case(res, c0, stoich, K)
+        claimed = 0
+        for entry in ("root", "solve"):
+            for chain in CHAINS:
+                if entry == "root" and chain == ("Lin",):
+                    continue  # root with the linear formulation alone from a start with absent species: the recorded known finding (layer H), not repeated here
+                for levels in ((1e-2, 3e-3), (1e-3, 1e-3), (0.2, 0.05)):
+                    n0 = res.nontrivial
+                    subclass_case(res, entry, chain, levels)
+                    claimed += res.nontrivial - n0
+        if not claimed:
+            res.violation("C08|subclass-eq_constants|no-claimed-result", "no entry point claimed a result on the subclass system: the layer decides nothing", dict(layer="SC", entry=None), 0, ">0")
         for orient in ORIENTATIONS:
             for ksp in KSPS:
                 for init in itertools.product((0.0, 1.0, 3.0), (1.0, 3.0), (0.0, 2.0)):
@@ -520,6 +533,11 @@ def run_chunk(chunk, tier):
         _, orient = chunk
         for ksp, chain in itertools.product(PT_KSP, CHAINS):
             for lat in itertools.product(PT_LATTICE, PT_LATTICE, (0.0, 1.0)):
+                if 0.01 in lat[:2] and chain == ("Log",):
+                    # the logarithmic formulation writes an absent solid as its floor exp(-36) = 2.3e-16 mol/dm3, which at these
+                    # concentrations is not negligible; whether that is "absent" the statement does not decide: undersaturated trace
+                    # compositions are explored with the chains that end in a linear stage
+                    continue
                 if any(lat):
                     tiny_ksp_case(res, orient, ksp, chain, lat)
         res.sample(dict(layer="PT", system="salt written as " + orient, ksp=PT_KSP, lattice_in_units_of_10_sqrt_Ksp=PT_LATTICE), limit=1)
@@ -633,7 +651,7 @@ def prebuilt_case(res, orient, kb, kn, chain, init):
 
 
 PT_KSP = [1e-18, 1e-12]
-PT_LATTICE = [0.0, 1.0, 3.0]  # in units of 10*sqrt(Ksp): ion products 0, 100 Ksp, 300 Ksp, 900 Ksp
+PT_LATTICE = [0.0, 0.01, 1.0, 3.0]  # in units of 10*sqrt(Ksp): ion products 0, 0.01 Ksp (undersaturated), 100 Ksp, 300 Ksp, 900 Ksp
 
 
 def tiny_ksp_case(res, orient, ksp, chain, lat):
@@ -754,6 +772,90 @@ def big_case(res, ntags, sc, chain, species_as):
         res.violation("C08|%s|not-claimed-near-equilibrium" % run, "%s for %d equilibria started %+.0f%% of an extent away from equilibrium: %s" % (run, len(tags), 100 * sc, claim), case, claim, "success+sane")
 
 
+def brentq_spelling_case(res, c0, stoich, K):
+    """the bracketing scalar solver on one problem with the start composition spelled as list of ints / of floats / tuple / integer
+    and float arrays: every spelling gives the equilibrium composition (Q = K, totals kept, non-negative)"""
+    import numpy as np
+    from chempy._equilibrium import solve_equilibrium
+
+    spellings = [("list-of-int", lambda: [int(v) for v in c0]), ("list-of-float", lambda: [float(v) for v in c0]), ("tuple-mixed", lambda: tuple([float(c0[0])] + [int(v) for v in c0[1:]])),
+                 ("ndarray-int", lambda: np.array([int(v) for v in c0])), ("ndarray-float", lambda: np.array(c0, dtype=float))]
+    for sname, mk in spellings:
+        res.states += 1
+        res.transitions += 1
+        res.evaluations += 1
+        res.nontrivial += 1
+        arg = mk()
+        try:
+            x = [float(v) for v in solve_equilibrium(arg, stoich, K)]
+            q = 1.0
+            for v, nu in zip(x, stoich):
+                q *= v ** nu
+            rc = [(v - c) / nu for v, c, nu in zip(x, c0, stoich) if nu]
+            bad = None
+            if min(x) < 0:
+                bad = "negative concentration"
+            elif abs(q / K - 1) > 1e-8:
+                bad = "Q/K = %.6g" % (q / K)
+            elif max(rc) - min(rc) > 1e-9 * max(1.0, max(abs(v) for v in rc)):
+                bad = "not on the reaction line through the start composition (extents %r)" % (rc,)
+            elif [float(v) for v in arg] != [float(v) for v in c0]:
+                bad = "the caller's start composition now reads %r" % (list(arg),)
+        except Exception as e:
+            x, bad = None, "raised %s" % type(e).__name__
+        res.outcomes["brentq-spelling:%s" % ("ok" if bad is None else "WRONG")] += 1
+        if bad:
+            res.violation("C08|solve_equilibrium|start-composition-as-%s|%s" % (sname, bad.split(" ")[0]), "solve_equilibrium(%s %r, %r, %r) = %r: %s" % (sname, list(c0), list(stoich), K, x, bad),
+                          dict(layer="BS", c0=list(c0), stoich=list(stoich), K=K), x, None)
+
+
+def subclass_case(res, entry, chain, levels):
+    """a user subclass of EqSystem whose eq_constants() returns constants corrected to working conditions: every entry point solves for
+    the constants the system says it has (Q = K(eqsys.eq_constants()) for every claimed result)"""
+    import numpy as np
+    from collections import defaultdict
+    from chempy.equilibria import EqSystem
+
+    class ConditionalEqSystem(EqSystem):
+        log10_corr = {"Kw": +0.55, "Ka_NH4": -0.35, "Ka_HAc": +0.2}
+
+        def eq_constants(self, non_precip_rids=(), eq_params=None, small=0):
+            if eq_params is None:
+                eq_params = [rxn.param * 10 ** self.log10_corr.get(rxn.name, 0.0) for rxn in self.rxns]
+            return super(ConditionalEqSystem, self).eq_constants(non_precip_rids, eq_params, small)
+
+    text = "H2O = H+ + OH-; 1e-14/55.5; name='Kw'\nNH4+ = NH3 + H+; 10**-9.26; name='Ka_NH4'\nCH3COOH = CH3COO- + H+; 10**-4.76; name='Ka_HAc'"
+    es = ConditionalEqSystem.from_string(text)
+    c_nh3, c_hac = levels
+    c0 = defaultdict(float, {"H2O": 55.5, "NH3": c_nh3, "CH3COOH": c_hac, "H+": 1e-7, "OH-": 1e-7})
+    case = dict(layer="SC", entry=entry, chain=list(chain), levels=list(levels))
+    res.states += 1
+    res.transitions += 1
+    res.evaluations += 1
+    try:
+        if entry == "root":
+            x, sol, sane = es.root(c0, NumSys=_numsys(chain))
+            ok = bool(sol["success"]) and bool(sane)
+        else:
+            r = es.solve(c0, NumSys=_numsys(chain))
+            x, ok = r.conc, bool(r.success) and bool(r.sane)
+    except Exception as e:
+        res.outcomes["subclass:%s:EXC %s" % (entry, type(e).__name__)] += 1
+        return
+    if not ok:
+        res.outcomes["subclass:%s:not-claimed" % entry] += 1
+        return
+    res.nontrivial += 1
+    qs = es.equilibrium_quotients(np.asarray(x, dtype=float))
+    want = [rxn.param * 10 ** ConditionalEqSystem.log10_corr[rxn.name] for rxn in es.rxns]
+    ratios = [float(q / k) for q, k in zip(qs, want)]
+    bad = [r_ for r_ in ratios if abs(r_ - 1) > RTOL]
+    res.outcomes["subclass:%s:%s" % (entry, "genuine" if not bad else "NOT-GENUINE")] += 1
+    if bad:
+        res.violation("C08|%s|subclass-eq_constants|Q!=K" % entry, "%s(%s) on a subclass of EqSystem with corrected eq_constants(), NH3=%g, CH3COOH=%g: claimed success+sane, Q/K = %r" % (
+            entry, "+".join(chain), c_nh3, c_hac, ratios), case, ratios, [1.0] * len(ratios))
+
+
 def dissolved_case(res, orient, ksp, init):
     """a reported result fed on: to EqSystem.dissolved (what would the solution hold without the solid?) and as the starting guess of
     the next calculation; the reported array itself stays the reported result"""
@@ -845,12 +947,16 @@ def grid_order_case(res, tags, a, b):
 
 # --------------------------------------------------------------------------------------------- replay
 def replay(case):
-    if case.get("layer") in ("PN", "GV", "PT", "WS", "HK", "BG", "DS"):
+    if case.get("layer") in ("PN", "GV", "PT", "WS", "HK", "BG", "DS", "BS", "SC"):
         res = Result()
         if case["layer"] == "BG":
             big_case(res, case["ntags"], case["sc"], tuple(case["chain"]), case["species_as"])
         elif case["layer"] == "DS":
             dissolved_case(res, case["orient"], case["ksp"], case["init"])
+        elif case["layer"] == "BS":
+            brentq_spelling_case(res, case["c0"], tuple(case["stoich"]), case["K"])
+        elif case["layer"] == "SC":
+            subclass_case(res, case["entry"], tuple(case["chain"]), tuple(case["levels"]))
         elif case["layer"] == "HK":
             check_reassigned_constant(res, tuple(case["tags"]), case["j"], case["c"], case["entry"], case["factor"])
         elif case["layer"] == "PT":
